@@ -239,16 +239,102 @@ def check(prog, rep):
             if dotted(c.func) in (fi.name, "gradient", "_gradient_cached") and len(c.args) == 2:
                 ok = src(c.args[1]) == fi.node.args.args[1].arg
                 rep.ob("R02.1", fi.name, ok, "recursive calls differentiate w.r.t. the unchanged variable" if ok else f"recursive call {src(c)[:50]} differentiates with respect to a different variable", loc=f"{fi.module.rel}:{c.lineno}", detail=f"same-wrt:{src(c.args[0])}")
-        # R02.3 leaves
+        # R02.3 leaves (by value: what the arm stores / returns, shared locals such as `zero = Constant(0.0)` resolved)
         d = dispatcher(prog, fi)
-        for k, want in (("Constant", "0"), ("Parameter", "0")):
+        fasg = local_assignments(fi.node)
+
+        def const_of(e, depth=0):
+            """numeric value of an expression that builds a Constant node, 'other' for a recognised non-constant, None if unknown"""
+            if isinstance(e, ast.Call) and dotted(e.func) == "Constant" and len(e.args) == 1:
+                a0 = e.args[0]
+                if isinstance(a0, ast.Call) and dotted(a0.func) == "float" and a0.args:
+                    a0 = a0.args[0]
+                try:
+                    return float(ast.literal_eval(a0))
+                except Exception:
+                    return None
+            if isinstance(e, ast.Name) and depth < 3:
+                vals = [x for x in fasg.get(e.id, []) if isinstance(x, ast.AST)]
+                if len(vals) == 1:
+                    return const_of(vals[0], depth + 1)
+            return None
+
+        def results_of(body):
+            """value expressions an arm produces: `return v`, `<table>[key] = v`"""
+            out = []
+            for st in body:
+                for n in ast.walk(st):
+                    if isinstance(n, ast.Return) and n.value is not None:
+                        out.append(n.value)
+                    elif isinstance(n, ast.Assign) and any(isinstance(t, ast.Subscript) for t in n.targets):
+                        out.append(n.value)
+            return out
+
+        for k in ("Constant", "Parameter"):
             a = exact_arm(d, prog, k)
-            ok = a is not None and k in a.kinds and "Constant(0.0)" in src(a.body)
-            rep.ob("R02.3", f"{fi.name}[{k}]", ok, f"{k} -> 0" if ok else f"{k} nodes do not differentiate to Constant(0.0)", loc=f"{fi.module.rel}:{a.lineno if a else fi.node.lineno}", detail="leaf")
+            if a is None or k not in a.kinds:
+                rep.ob("R02.3", f"{fi.name}[{k}]", False, f"no arm of {fi.name} handles {k} leaves", loc=fi.loc, detail="leaf")
+                continue
+            vals = [const_of(v) for v in results_of(a.body)]
+            if not vals or any(v is None for v in vals):
+                rep.undecided(f"{fi.name}[{k}]: what the arm produces (`{'; '.join(src(v)[:30] for v in results_of(a.body))[:70]}`) is not interpretable")
+                continue
+            ok = all(v == 0.0 for v in vals)
+            rep.ob("R02.3", f"{fi.name}[{k}]", ok, f"{k} -> 0" if ok else f"{k} nodes differentiate to Constant({[v for v in vals if v != 0.0][0]}), not 0", loc=f"{fi.module.rel}:{a.lineno}", detail="leaf", robust=True)
         a = exact_arm(d, prog, "Variable")
-        s = src(a.body) if a else ""
-        ok = a is not None and f"{d.subject}.name == wrt.name" in s and "Constant(1.0)" in s and "Constant(0.0)" in s and s.find("Constant(1.0)") < s.find("Constant(0.0)")
-        rep.ob("R02.3", f"{fi.name}[Variable]", ok, "Variable -> 1 iff its name equals wrt's name, else 0" if ok else "the Variable rule is not `1 if name == wrt.name else 0`", loc=f"{fi.module.rel}:{a.lineno if a else fi.node.lineno}", detail="leaf")
+        wrt = fi.node.args.args[1].arg if len(fi.node.args.args) > 1 else "wrt"
+        if a is None:
+            rep.ob("R02.3", f"{fi.name}[Variable]", False, f"no arm of {fi.name} handles Variable leaves", loc=fi.loc, detail="leaf")
+        else:
+            picks = []      # (test, value if true, value if false)
+            for v in results_of(a.body):
+                if isinstance(v, ast.IfExp):
+                    picks.append((v.test, const_of(v.body), const_of(v.orelse)))
+            for st in a.body:
+                if isinstance(st, ast.If) and st.orelse:
+                    t_, f_ = results_of(st.body), results_of(st.orelse)
+                    if len(t_) == 1 and len(f_) == 1:
+                        picks.append((st.test, const_of(t_[0]), const_of(f_[0])))
+            if len(picks) != 1 or picks[0][1] is None or picks[0][2] is None:
+                rep.undecided(f"{fi.name}[Variable]: the leaf rule is not a single two-way choice this rule can read")
+            else:
+                t_, one_, zero_ = picks[0]
+                neg = False
+                if isinstance(t_, ast.UnaryOp) and isinstance(t_.op, ast.Not):
+                    t_, neg = t_.operand, True
+                form = None
+                if isinstance(t_, ast.Compare) and len(t_.ops) == 1:
+                    l_, r_ = src(t_.left), src(t_.comparators[0])
+                    pair = {l_, r_}
+                    if pair == {f"{d.subject}.name", f"{wrt}.name"} and isinstance(t_.ops[0], (ast.Eq, ast.NotEq)):
+                        form = "name"
+                        neg ^= isinstance(t_.ops[0], ast.NotEq)
+                    elif pair == {d.subject, wrt} and isinstance(t_.ops[0], (ast.Eq, ast.NotEq)):
+                        veq = prog.cls("Variable").methods.get("__eq__")
+                        by_name = veq is not None and any(isinstance(c_, ast.Compare) and {src(c_.left), src(c_.comparators[0])} == {"self.name", f"{veq.node.args.args[1].arg}.name"} for c_ in ast.walk(veq.node))
+                        if not by_name:
+                            rep.undecided(f"{fi.name}[Variable]: compares the leaf with {wrt} by ==, and Variable.__eq__ is not a comparison of names")
+                            form = "skip"
+                        else:
+                            form = "name"        # Variable.__eq__ compares names (both operands are Variables in this arm)
+                        neg ^= isinstance(t_.ops[0], ast.NotEq)
+                    elif pair == {d.subject, wrt} and isinstance(t_.ops[0], (ast.Is, ast.IsNot)):
+                        form = "object"
+                        neg ^= isinstance(t_.ops[0], ast.IsNot)
+                if neg:
+                    one_, zero_ = zero_, one_
+                if form == "skip":
+                    pass
+                elif form is None:
+                    rep.undecided(f"{fi.name}[Variable]: the test `{src(picks[0][0])[:50]}` is not a comparison of the leaf with {wrt}")
+                elif form == "object":
+                    rep.ob("R02.3", f"{fi.name}[Variable]", False,
+                           f"the Variable rule decides `is this {wrt}?` by `{src(picks[0][0])}` (object identity), not by name: evaluation binds variables by name, so for two Variable objects "
+                           f"with one name (a re-created or copied variable) the derivative is 0 although the expression depends on it; the sibling walker compares names",
+                           loc=f"{fi.module.rel}:{a.lineno}", detail="leaf", robust=True)
+                else:
+                    ok = one_ == 1.0 and zero_ == 0.0
+                    rep.ob("R02.3", f"{fi.name}[Variable]", ok, "Variable -> 1 iff its name equals wrt's name, else 0" if ok else f"the Variable rule gives {one_} when the names agree and {zero_} otherwise (expected 1 and 0)", loc=f"{fi.module.rel}:{a.lineno}", detail="leaf", robust=True)
         rf = _registry_first(fi, in_loop="iterative" in fi.name)
         rep.ob("R02.4", fi.name, rf, "consults the gradient registry before its own arms" if rf else "does not consult the gradient registry before its own arms", loc=fi.loc, detail="registry-first")
     # R02.4 unary coverage of the recursive walker = _OPS
